@@ -442,6 +442,12 @@ def _(eng, ci, a, sp):
     v = a[0]
     tgt = ci.traitfull[ci.traitfull.index('<') + 1:-1] if '<' in ci.traitfull else None
     inner = v.get() if isinstance(v, Ref) else v
+    # `&T: AsRef<U>` blanket impl: look through nested references to a crate type
+    d = 0
+    while isinstance(inner, Ref) and isinstance(inner.get(), (Ref, Struct, Enum)) and d < 4:
+        v = inner
+        inner = inner.get()
+        d += 1
     # in-crate AsRef impls on crate types
     if isinstance(inner, (Struct, Enum)):
         rt = eng.runtime_type(inner)
